@@ -285,7 +285,11 @@ def bootstrap_block(src):
     return 'AGENT_EXITCODE=1\nfinal_state=\n' + bs[i:j + 3] + '\necho "FINAL=$final_state"\n'
 
 
-def run_agent(rp, events, finalize, scratch, block):
+FILE_VARIANTS = [None, b'', b'plain ascii output\n', 'gr\u00fc\u00dfe \u2713\n'.encode('utf8'), 'Gr\u00fc\u00dfe vom Launcher\n'.encode('latin-1'),
+                 b'\x00\xff\xfe binary \x80\x81 garbage\n']
+
+
+def run_agent(rp, events, finalize, scratch, block, files=0):
     import time as _time
     d = os.path.join(scratch, 'agent_sbox')
     os.makedirs(d, exist_ok=True)
@@ -294,6 +298,12 @@ def run_agent(rp, events, finalize, scratch, block):
     cwd = os.getcwd()
     os.chdir(d)
     try:
+        # what the agent's own output, error and log files hold when it ends (finalize() attaches their heads to the
+        # final notification): nothing, text, text in another encoding, bytes that are no text at all
+        for j, name in enumerate(('agent_0.out', 'agent_0.err', 'agent_0.log')):
+            content = FILE_VARIANTS[(files + j * (files % 3)) % len(FILE_VARIANTS)] if files else None
+            if content is not None:
+                with open(name, 'wb') as fh: fh.write(content)
         a = make_agent(rp, scratch)
         early = {'signal': None, 'done': False}
         if finalize == 'stop':
@@ -302,8 +312,11 @@ def run_agent(rp, events, finalize, scratch, block):
             def close():
                 if not early['done'] and a._term.is_set():
                     early['done'] = True
-                    a.finalize()
-                    early['signal'] = open('killme.signal').read().strip()
+                    try:
+                        a.finalize()
+                        early['signal'] = open('killme.signal').read().strip()
+                    except Exception as e:
+                        early['signal'] = 'finalize-raised:%s' % type(e).__name__
             a._session.close = close
         for i, e in enumerate(events):
             form = (i + len(events)) % 2
@@ -327,8 +340,13 @@ def run_agent(rp, events, finalize, scratch, block):
                 try: os.unlink('killme.signal')
                 except OSError: pass
         elif finalize:
-            a.finalize()
-            signal = open('killme.signal').read().strip()
+            # (an exception that escapes finalize() is only logged by the component's work loop: the agent ends without
+            #  having written its final state)
+            try:
+                a.finalize()
+                signal = open('killme.signal').read().strip()
+            except Exception as e:
+                signal = open('killme.signal').read().strip() if os.path.exists('killme.signal') else 'finalize-raised:%s' % type(e).__name__
             pushed = [t['state'] for t in a.advanced if isinstance(t, dict)]
             if pushed != [signal]:
                 signal = 'MISMATCH %s vs %s' % (pushed, signal)
@@ -443,18 +461,20 @@ def run(ctx):
     # agent: all event sequences up to length 4, with and without finalize
     block = bootstrap_block(common.SRC)
     ops, impl = [], []
+    nfile = 0
     import time as _time
     for n in range(0, 5):
         for evs in itertools.product(EVENTS, repeat=n):
             for fin in (True, False, 'stop'):
-                res = run_agent(rp, list(evs), fin, ctx.scratch, block)
+                nfile += 1
+                res = run_agent(rp, list(evs), fin, ctx.scratch, block, files=nfile % 7)
                 op  = {'op': 'cause', 'events': list(evs), 'finalize': fin}
                 ops.append(op)
                 impl.append(res)
                 ctx.case(op, nontrivial=n > 0)
                 bad = monitor_agent(list(evs), fin, res)
                 if bad:
-                    ctx.fail(bad[0], bad[1], {'kind': 'agent', 'events': list(evs), 'finalize': fin},
+                    ctx.fail(bad[0], bad[1], {'kind': 'agent', 'events': list(evs), 'finalize': fin, 'files': nfile % 7},
                              observed=res)
     ctx.sample({'events': ops[-3]['events'], 'finalize': ops[-3]['finalize'], 'observed': impl[-3]}, limit=3)
     common.compare(ctx, 'cause', ops, impl, what='Agent_0 cause -> killme.signal -> bootstrap_0.sh (exhaustive, len<=4)')
@@ -518,7 +538,7 @@ def replay(ctx, data):
         state, cbs, mcbs, errs = run_pilot(rp, inp['cur'], inp['seq'])
         bad = monitor_pilot(rp, inp['cur'], inp['seq'], state, cbs, mcbs, errs)
     else:
-        res = run_agent(rp, inp['events'], inp['finalize'], ctx.scratch, bootstrap_block(common.SRC))
+        res = run_agent(rp, inp['events'], inp['finalize'], ctx.scratch, bootstrap_block(common.SRC), files=inp.get('files', 0))
         bad = monitor_agent(inp['events'], inp['finalize'], res)
         print('observed:', res)
     print(bad)
